@@ -279,9 +279,31 @@ def c14(tier, seed):
         pairs = allp if len(allp) <= 15 else ex.rng.sample(allp, 15)
         ref, _ = canon_analysis(base, pairs)
         bad = []
+        # a filtered load of the file and of its rewritings selects the same families (by a cross-reference value, preferably
+        # one that several genes carry)
+        xcount = collections.Counter(v for _, gs_ in D.species for _, xr in gs_ for _, v in xr)
+        xvals = [v for v, c in xcount.items() if c >= 2] or list(xcount)
+        fval = ex.rng.choice(sorted(xvals)) if xvals else None
+        def filtered_canon(E_):
+            f_ = pyham.ParserFilter(); f_.add_hogs_via_GeneExtId([fval])
+            c_, _ = canon_analysis(core.load_py(E_, filter_object=f_), [], with_profiles=False)
+            return {k_: c_[k_] for k_ in ('forest', 'members', 'genes')}
+        ref_f = None
+        if fval is not None and all(t is not None for _, _, t in D.families):
+            try:
+                ref_f = filtered_canon(D); ex.res.count('filtered_loads_of_rewritings')
+            except Exception as e:      # noqa
+                ex.fail(cid, D, ['filtered load (external id %r) raised %s' % (fval, type(e).__name__)])
         for j in range(4 if tier == 'quick' else 6):
             E = rewrite_dataset(ex.rng, D)
             ex.res.count('rewritings')
+            if ref_f is not None and j < 2:
+                try:
+                    kf = first_diff(ref_f, filtered_canon(E))
+                    if kf:
+                        ex.fail(cid + '-r%d' % j, E, ['a meaning-preserving rewriting changes %s of the load filtered by external id %r (original: %s)' % (kf, fval, core.dataset_payload(D)['orthoxml'])])
+                except Exception as e:      # noqa
+                    ex.fail(cid + '-r%d' % j, E, ['filtered load of a rewriting raised %s' % type(e).__name__])
             if E.meta.get('nested'):
                 ex.res.count('rewritings_nested_paralogGroups')
             try:
